@@ -510,6 +510,11 @@ pub fn specs_for(which: Which, seed: u64, tier: &str) -> Vec<(String, ProgSpec, 
     for (k, n) in [65_535usize, 65_536].iter().enumerate() {
         specs.push((format!("boundary:pool_of_{}", n), ProgSpec::Model(foreign::boundary_pool_model(*n)), base + k as u64));
     }
+    // pool sizes whose u16 makes the image start like something else (`#!`, BOM, gzip, line ends, ...)
+    let base = specs.len() as u64;
+    for (k, n) in super::cycleb::MAGIC_POOL_SIZES.iter().enumerate() {
+        specs.push((format!("boundary:image_starts_with_{:02x}_{:02x}", n & 0xff, (n >> 8) & 0xff), ProgSpec::Model(foreign::boundary_pool_model(*n)), base + k as u64));
+    }
     let base = specs.len() as u64;
     for j in 0..n_model {
         let case = base + j as u64;
